@@ -273,7 +273,9 @@ def detect_check(case):
         if kind == "outside+silent":
             raw[b] = 0.0
             exp[b] = 1
-    labels, _ = voltage.detect_bad_channels(raw, FS)
+    # the sampling rate as recordings carry it: nominal, or the calibrated AP rate a little below / above it (imSampRate after clock calibration)
+    fs_arg = (FS, 29999.954, 30000.268421, float(FS))[(a + b) % 4]
+    labels, _ = voltage.detect_bad_channels(raw, fs_arg)
     labels = np.asarray(labels)
     v = []
     if kind == "silent" and a == nc - 1:
@@ -291,9 +293,9 @@ def detect_check(case):
             key = "detect:clean"
         else:
             key = "detect:%s" % kind
-        v.append((key, "%s(%r,%r): labels differ from the injected ones at channels %r: got %r, expected %r"
-                  % (kind, a, b, diff[:8].tolist(), labels[diff[:8]].astype(int).tolist(), exp[diff[:8]].astype(int).tolist())))
-    return Res(v, o=kind, nt=kind != "clean")
+        v.append((key, "%s(%r,%r) at fs=%r: labels differ from the injected ones at channels %r: got %r, expected %r"
+                  % (kind, a, b, fs_arg, diff[:8].tolist(), labels[diff[:8]].astype(int).tolist(), exp[diff[:8]].astype(int).tolist())))
+    return Res(v, o=(kind, (a + b) % 4), nt=kind != "clean")
 
 
 # ------------------------------------------------------------------ labels from a file = per-channel mode over its batches
